@@ -151,6 +151,33 @@ def escape(ctx):
                     for t in (n.targets if hasattr(n, 'targets') else []):
                         if isinstance(t, ast.Subscript) and isinstance(t.value, ast.Attribute) and t.value.attr == attr:
                             hits.append(n)
+            # the same through a local alias: a name bound (by assignment, or as the target of a loop over a literal collection)
+            # to <x>.<attr> and then mutated in place
+            for fn_ in [x for x in ast.walk(mod.tree) if isinstance(x, ast.FunctionDef)]:
+                aliases = set()
+                for n in ast.walk(fn_):
+                    if isinstance(n, ast.Assign) and isinstance(n.value, ast.Attribute) and n.value.attr == attr:
+                        aliases |= {t.id for t in n.targets if isinstance(t, ast.Name)}
+                    if isinstance(n, (ast.For, ast.comprehension)) and isinstance(n.iter, (ast.Tuple, ast.List)):
+                        for el in n.iter.elts:
+                            parts = el.elts if isinstance(el, (ast.Tuple, ast.List)) else [el]
+                            tg = n.target.elts if isinstance(n.target, (ast.Tuple, ast.List)) and isinstance(el, (ast.Tuple, ast.List)) else [n.target]
+                            for t_, v_ in zip(tg, parts):
+                                if isinstance(t_, ast.Name) and isinstance(v_, ast.Attribute) and v_.attr == attr:
+                                    aliases.add(t_.id)
+                if not aliases:
+                    continue
+                for n in ast.walk(fn_):
+                    if isinstance(n, ast.Call) and isinstance(n.func, ast.Attribute) and n.func.attr in MUTATORS and \
+                            isinstance(n.func.value, ast.Name) and n.func.value.id in aliases:
+                        hits.append(n)
+                    if isinstance(n, ast.AugAssign) and isinstance(n.target, (ast.Name, ast.Subscript)) and \
+                            isinstance(getattr(n.target, 'value', n.target), ast.Name) and getattr(n.target, 'value', n.target).id in aliases:
+                        hits.append(n)
+                    if isinstance(n, (ast.Assign, ast.Delete)):
+                        for t in n.targets:
+                            if isinstance(t, ast.Subscript) and isinstance(t.value, ast.Name) and t.value.id in aliases:
+                                hits.append(n)
         r.check(not hits, '%s aliases the loader\'s statement data and is never mutated in place' % field, where, construct=field, key='mutated-alias',
                 msg='%s is stored by reference from a statement shared by all builds, and `%s` mutates it in place: a change made through '
                     'one metamodel shows up in the others' % (field, src(hits[0])[:80] if hits else ''))
